@@ -82,7 +82,11 @@ pub fn ver_frame(mode: SizeMode, reqi: u8, insimver: u8, rng: &mut Rng) -> Vec<u
     pb.resize(6, 0);
     f.extend_from_slice(&pb);
     f.push(insimver);
-    f.push(0);
+    // Spare: zero from LFS, but nothing stops a relay or a newer version from using it
+    f.push(if rng.chance(1, 4) { rng.byte() } else { 0 });
+    if rng.chance(1, 8) {
+        f[3] = rng.byte();
+    }
     f
 }
 
